@@ -12,7 +12,8 @@ LEVEL = "model_checking"
 PKG = "internal/mempool"
 FILES = ["verif_mempool_test.go"]
 NEED = ("add_of_streamed_item", "add_at_item_limit", "expiry_evicts", "streams", "prepares", "stream_handouts",
-        "finish_with_restorable", "finish_with_prepared_batch", "restore_dropped_by_limit")
+        "finish_with_restorable", "finish_with_prepared_batch", "restore_dropped_by_limit", "top_with_visits",
+        "top_give_backs", "top_with_concurrent_call")
 
 
 def sig(fail):
@@ -37,7 +38,7 @@ def binding_tv(ctx, scenarios, depth):
         evs = [l["ev"] for l in lines]
         restored = any(l["ev"] == "finish" and l["restore"] for l in lines)
         handed = any(l["ev"] == "stream" and l["out"] for l in lines)
-        if restored and handed and "add" in evs:
+        if restored and handed and "add" in evs and ("top" in evs or "topc" in evs):
             distinct.add(hash(json.dumps(lines, sort_keys=True)))
     ctx.add("evaluations", len(files))
     ctx.add("distinct_nontrivial", len(distinct))
@@ -46,6 +47,8 @@ def binding_tv(ctx, scenarios, depth):
         ctx.add("tv_" + k, stats.get(k, 0))
         if ctx.only is None and stats.get(k, 0) == 0:
             raise vlib.Infra("vacuity: recorded scenarios never exercised " + k)
+    # with a correct mempool the overlapping call blocks until Top returns; informational (not a guard, not an oracle)
+    ctx.add("tv_concurrent_call_returned_after_top", stats.get("concurrent_call_returned_after_top", 0))
     fails = vlib.validate_scenarios(ctx, "Mempool_Trace", "Mempool_Trace.cfg", files, label="tv", signature_fn=sig)
     for f in files:
         os.remove(f)
@@ -60,7 +63,7 @@ def run(ctx):
     if ctx.only is None:
         vlib.tlc_mc(ctx, "Mempool_MC", ctx.pick("Mempool_MC_quick.cfg", "Mempool_MC.cfg"), coverage=ctx.quick,
                     timeout=1500)
-    fails = binding_tv(ctx, ctx.pick(300, 4000), ctx.pick(60, 100))
+    fails = binding_tv(ctx, ctx.pick(200, 4000), ctx.pick(60, 100))
     vlib.report_failures(ctx, fails, describe)
     ctx.cov["rule"] = ("tv: seeded random single-threaded call sequences over 3-8 items, 1-3 sponsors, sizes 1-3, "
                        "expiries 1-5, item limit 1-6, sponsor limit 1..item limit; a scenario is non-trivial when it adds, "
